@@ -10,10 +10,11 @@
    preserved (InvFacts), so EVERY board reached from a parsed board or the standard position by moves the
    checked operations accept carries the from-scratch hash (C04_reachable) and boards that compare equal
    hash equal whatever move order produced them (C04_pure_function).
-   Side condition of the reachability induction, stated in `Reach`: the mover has a king (kings are never
-   captured: that is C01; discharged in proofs/Reachable.v). *)
+   `Reach` (InvFacts) carries the side condition "the mover has a king"; `Reachable` (proofs/Reachable.v: standard,
+   parsed, built, moved - no side condition) discharges it through C01 (kings are never captured):
+   C04_reachable_all, C04_pure_function_all. *)
 From Coq Require Import NArith List Bool.
-From Chess Require Import base.Bits base.Types gen.T_zobrist base.BitBoard model.Board model.MoveGen model.Apply model.Fen proofs.ZobristFacts proofs.HashFacts spec.IterSpec proofs.InvFacts proofs.Combine.
+From Chess Require Import base.Bits base.Types gen.T_zobrist base.BitBoard model.Board model.MoveGen model.Apply model.Fen proofs.ZobristFacts proofs.HashFacts spec.IterSpec proofs.InvFacts proofs.Combine proofs.Reachable.
 Local Open Scope N_scope.
 
 Theorem C04_keys_distinct_nonzero : NoDup all_keys /\ ~ In 0 all_keys /\ (forall k, In k all_keys -> wf64 k).
@@ -72,3 +73,11 @@ Print Assumptions C04_reachable.
 Theorem C04_pure_function : forall a b, Reach a -> Reach b -> board_eqb a b = true -> zobrist a = zobrist b.
 Proof. exact reach_equal_boards_equal_hash. Qed.
 Print Assumptions C04_pure_function.
+
+Theorem C04_reachable_all : forall b, Reachable b -> Part b /\ b_zob b = scratch_piece_hash b.
+Proof. exact reachable_hash. Qed.
+Print Assumptions C04_reachable_all.
+
+Theorem C04_pure_function_all : forall a b, Reachable a -> Reachable b -> board_eqb a b = true -> zobrist a = zobrist b.
+Proof. exact reachable_equal_boards_equal_hash. Qed.
+Print Assumptions C04_pure_function_all.
